@@ -46,6 +46,15 @@ def main():
     env['CARGO_TARGET_DIR'] = wt + '/target'
     env['CARGO_NET_OFFLINE'] = 'true'
     meta = {'id': sid, 'breaks_property': prop, 'needs_to_manifest': needs, 'ran': [], 'confirmed': {}}
+    prev = os.path.join(VERIF, 'seeded', sid, 'meta.json')
+    if skip and os.path.exists(prev):
+        # re-run of the checks only: keep the confirmation record
+        old_meta = json.load(open(prev))
+        meta['confirmed'] = old_meta.get('confirmed', {})
+        meta['ran'] = [r for r in old_meta.get('ran', []) if not r.startswith('VERIF_REPO=')]
+        meta['needs_to_manifest'] = needs or old_meta.get('needs_to_manifest', '')
+        if 'checks_before_strengthening' in old_meta:
+            meta['checks_before_strengthening'] = old_meta['checks_before_strengthening']
     try:
         shutil.copy(demo, wt + '/tests/seed_demo.rs')
         if not skip:
